@@ -109,6 +109,20 @@ class MarkovCheck(object):
                     cc.update({'kind': 'e6', 'sim': sim, 'mode': mode, 'T': r.choice([0.4, 0.8, 1.5]) * (2 if mode == 'stateT2' else 1), 'runs': runs,
                                'full': (k % 2 == 0), 'seed': cs + (1 if sim == self.FAST else 0), 'ntests': n_cfg * 4})
                     cases.append(cc)
+        # --- endure: weighted selections that see K consecutive rejections
+        for j in range(10 if q else 40):
+            cs = case_seed(seed, self.PID + 'endure', j)
+            r = random.Random(cs)
+            desc = gen.random_graph(r, 5, 10, kinds=['gnp', 'cycle', 'star', 'tree', 'regular'])
+            desc['labels'] = r.choice(gen.LABEL_SCHEMES)
+            c = simcase.make_markov_case(r, desc, weight_mode=r.choice(['edge', 'both']), rates=r.choice([(1.0, 1.0), (2.0, 0.5)]), with_R0=False, tmins=(0, -2))
+            g = c['graph']
+            g['ew'] = {a: [r.choice([0.1, 0.2, 0.3, 0.7, 1.1, 1.3, 2.3]) for _ in ws] for a, ws in g['ew'].items()}
+            if g.get('nw'):
+                g['nw'] = {a: [r.choice([0.2, 0.5, 1.0, 1.7]) for _ in ws] for a, ws in g['nw'].items()}
+            c['I0'] = sorted(r.sample(range(desc['n']), min(desc['n'], 3)))
+            c.update({'kind': 'endure', 'seed': cs, 'K': r.choice([150, 1500, 15000] if q else [150, 1500, 15000, 120000]), 'tmax': 'inf' if self.MODEL == 'SIR' else c['tmin'] + 3.0})
+            cases.append(c)
         # --- rescale: black-box time-rescaling / event-type martingale tests on larger random graphs (both simulators)
         nres = 24 if q else 96
         for k in range(nres):
@@ -255,6 +269,60 @@ class MarkovCheck(object):
             res['sample'] = {'kind': 'e2', 'graph': case['graph'], 'tau': case['tau'], 'gamma': case['gamma'], 'I0': case['I0'],
                              'R0': case.get('R0'), 'steps': nsteps, 'first_log_entries': [list(map(str, e)) for e in px.log[:6]]}
 
+
+    def run_endure(self, case, res):
+        """a weighted Gillespie run in which one selection sees K consecutive rejections (a path of positive probability whenever the
+        live weights differ) before a candidate is accepted; the step-law monitor then judges the whole run"""
+        from .checks.c18 import Tripwires
+        simname = self.GILL
+        G, lab, tw, rw, I0, R0 = simcase.build(case)
+        wm = case['wm']
+        d = rngprobe.RejectDriver(case['K'], abort_after=None)
+        fails, counters = [], {}
+        npcalls = [0]
+        saved_np = {}
+        for nm in ('random', 'random_sample', 'rand', 'uniform', 'choice', 'exponential', 'randint', 'multinomial', 'permutation', 'shuffle'):
+            f0 = getattr(np.random, nm)
+            saved_np[nm] = f0
+
+            def w(*a, _f=f0, **k):
+                npcalls[0] += 1
+                return _f(*a, **k)
+            setattr(np.random, nm, w)
+        try:
+            with rngprobe.monitor(driver=d) as px:
+                px.min_prob = 0.0
+                with Tripwires() as tw_:
+                    sim = self._call(simname, G, case, tw, rw, I0, R0)
+        except rngprobe.DepthExceeded:
+            bump(res, 'endurance_runs_too_long')
+            return
+        except Exception as e:
+            viol(res, '%s|%s|endure|exception:%s' % (simname, wm, simcase.exc_key(e)), {'err': repr(e)})
+            return
+        finally:
+            for nm, f0 in saved_np.items():
+                setattr(np.random, nm, f0)
+        bump(res, 'endurance_runs')
+        if d.rejections < case['K']:
+            bump(res, 'endurance_runs_without_rejectable_candidate')
+            return
+        try:
+            markov.e2_gillespie(self.MODEL, G, case['tau'], case['gamma'], tw, rw, I0, R0, case['tmin'], self._tmax(case), px.log, sim, fails, counters)
+        except markov.SelectionAbandoned as e:
+            if tw_.hits or npcalls[0]:
+                bump(res, 'alternative_sampling_path_seen')
+                return
+            viol(res, '%s|%s|selection_abandoned_without_accepting_a_candidate' % (simname, wm), {'consecutive_rejections_before_giving_up': len(e.props), 'K_driven': case['K']})
+            return
+        except markov.ParseError as e:
+            res['inconclusive'] = 'draw protocol of %s not recognised: %s' % (simname, e)
+            return
+        for pred, det in fails[:2]:
+            viol(res, '%s|%s|endure|%s' % (simname, wm, pred), det)
+        bump(res, 'endurance_runs_completed')
+        res['nontrivial'] = self._distinct(case, 'endure:%d' % case['K'])
+        res['sample'] = {'kind': 'endure', 'graph': case['graph'], 'consecutive_rejections': case['K'], 'tau': case['tau'], 'gamma': case['gamma']}
 
     def run_e3(self, case, res, simname=None):
         simname = simname or self.GILL
@@ -604,6 +672,8 @@ class MarkovCheck(object):
             self.run_fast(case, res)
         elif k == 'rescale':
             self.run_rescale(case, res)
+        elif k == 'endure':
+            self.run_endure(case, res)
         else:
             self.run_e6(case, res)
         return res
